@@ -4,10 +4,13 @@ import (
 	crand "crypto/rand"
 	"fmt"
 	"os"
+	"path/filepath"
 	"reflect"
+	"regexp"
 	"runtime"
 	"runtime/debug"
 	"sort"
+	"strings"
 	"sync"
 	"time"
 	"unsafe"
@@ -188,6 +191,7 @@ type World struct {
 	LogOn      bool
 
 	clockStart time.Time
+	logStart   int64
 	Sample     string
 	Extra      map[string]interface{}
 }
@@ -199,6 +203,69 @@ var (
 )
 
 var logDir string
+
+// logSize returns the total size of the wallet's log files.
+func logSize() int64 {
+	var n int64
+	m, _ := filepath.Glob(filepath.Join(logDir, "sim.log-*"))
+	for _, f := range m {
+		if st, err := os.Stat(f); err == nil {
+			n += st.Size()
+		}
+	}
+	return n
+}
+
+var reLogMsg = regexp.MustCompile(`msg="((?:[^"\\]|\\.)*)"`)
+
+// RecentErrors returns the distinct error-level messages the wallet logged
+// during this run (most recent last, at most n). They are appended to
+// violation details so that findings can be told apart by cause.
+func (w *World) RecentErrors(n int) []string {
+	m, _ := filepath.Glob(filepath.Join(logDir, "sim.log-*"))
+	sort.Strings(m)
+	var data []byte
+	for _, f := range m {
+		b, err := os.ReadFile(f)
+		if err == nil {
+			data = append(data, b...)
+		}
+	}
+	if int64(len(data)) < w.logStart {
+		return nil
+	}
+	data = data[w.logStart:]
+	seen := map[string]bool{}
+	var out []string
+	for _, line := range strings.Split(string(data), "\n") {
+		if !strings.Contains(line, "level=error") {
+			continue
+		}
+		msg := ""
+		if mm := reLogMsg.FindStringSubmatch(line); mm != nil {
+			msg = mm[1]
+		}
+		if i := strings.Index(line, " err="); i >= 0 {
+			rest := line[i+5:]
+			if strings.HasPrefix(rest, "\"") {
+				if j := strings.Index(rest[1:], "\""); j >= 0 {
+					rest = rest[1 : j+1]
+				}
+			} else if j := strings.IndexByte(rest, ' '); j >= 0 {
+				rest = rest[:j]
+			}
+			msg += ": " + rest
+		}
+		if msg != "" && !seen[msg] {
+			seen[msg] = true
+			out = append(out, msg)
+		}
+	}
+	if len(out) > n {
+		out = out[len(out)-n:]
+	}
+	return out
+}
 
 // CleanupGlobal removes process-wide scratch files.
 func CleanupGlobal() {
@@ -218,7 +285,7 @@ func initGlobal() {
 		if os.Getenv("VERIF_LOG") != "" {
 			logging.Init(dir, "sim.log", os.Getenv("VERIF_LOG"), 1, false)
 		} else {
-			logging.Init(dir, "sim.log", "fatal", 1, true)
+			logging.Init(dir, "sim.log", "error", 1, true)
 		}
 		logrus.SetLevel(logrus.FatalLevel)
 		logrus.RegisterExitHandler(func() {
@@ -258,6 +325,7 @@ func NewWorld(seed uint64, plan, sched *Tape) *World {
 	currentWorld = w
 	worldMu.Unlock()
 	w.clockStart = time.Now()
+	w.logStart = logSize()
 	return w
 }
 
